@@ -1,14 +1,38 @@
 From Coq Require Import List NArith ZArith Bool.
 From SK Require Import lib.LGraph lib.Mono.
 From SK Require model.C06_Model model.C11_Model.
-From SK Require Import model.C03_Model model.C05_Model proof.C05_Proof proof.C05_Glue proof.C05_Pipe proof.C05_Prep proof.C05_Comp proof.C05_Main proof.C05_Order.
+From SK Require Import model.C03_Model model.C05_Model proof.C05_Proof proof.C05_Glue proof.C05_Pipe proof.C05_Prep proof.C05_Comp proof.C05_Main proof.C05_Order proof.C05_Sub proof.C05_Set proof.C05_Result.
+From SK Require Import lib.C06_Spec proof.C06_Comp.
 From SK Require proof.C11_Dedup.
+From Coq Require Import Permutation.
 Import ListNotations.
 
 (** Conventions.  [relabel f g] renames the node ids of a list graph by [f] and keeps the insertion order of nodes and
     edges; [inj f] = f is injective; [mv sg pi m] = the match [pi o m o sg^-1] (pairs (p, h) |-> (sg p, pi h)).
     [pi] renumbers the substrate, [sg] renumbers the rule (the template's atom-map numbers ARE its node ids).
-    All statements are literal equalities of lists / list graphs: nothing depends on the numbers themselves. *)
+    Sections 1-5c are literal equalities of lists / list graphs (renumbering that keeps insertion order); sections 2', 3',
+    6 and 7 are about graphs as FUNCTIONS and matches as SETS of pairs (any insertion order).  The vocabulary of the
+    latter is written out in [C05_vocabulary]. *)
+Theorem C05_vocabulary :
+  (forall f, inj f <-> forall a b : N, f a = f b -> a = b) /\
+  (forall sg pi (m : mapping), mv sg pi m = map (fun ph => (sg (fst ph), pi (snd ph))) m) /\
+  (* the same graph written in another order: same node ids, labels, adjacency *)
+  (forall (g g' : hostg), same_graph g g' <->
+     (forall u, label g' u = label g u) /\ (forall u v, LGraph.adj g' u v = LGraph.adj g u v) /\
+     (forall u, In u (node_ids g) <-> In u (node_ids g')) /\ NoDup (node_ids g) /\ NoDup (node_ids g')) /\
+  (* observational equality of two ITS graphs: the same label function and the same adjacency function *)
+  (forall (T T' : its), obs_eq T T' <->
+     (forall n, label T' n = label T n) /\ (forall a b, LGraph.adj T' a b = LGraph.adj T a b)) /\
+  (* what the boolean [side_okb] (evaluated by the correspondence on every writing) guarantees *)
+  (forall host p, side_okb host p = true ->
+     p_flag p = false /\ gwf (host_c06 host) /\ gwf (pat_c06 (p_pat p)) /\
+     (C06_Model.lenN (C06_Model.monos_on (host_c06 host) (pat_c06 (p_pat p))
+                        (node_ids (host_c06 host)) (node_ids (pat_c06 (p_pat p)))) <= DEFAULT_THRESHOLD)%N /\
+     NoDup (node_ids (p_rc p)) /\ simple_edgesb (gedges (p_rc p)) = true /\
+     (forall a b x, In (a, b, x) (gedges (p_rc p)) -> In a (node_ids (p_rc p)) /\ In b (node_ids (p_rc p))) /\
+     (forall u, In u (node_ids (p_pat p)) -> In u (node_ids (p_rc p)))).
+Proof. exact vocabulary. Qed.
+Print Assumptions C05_vocabulary.
 
 (** 1. Gluing is equivariant: the relabelled rule glued onto the relabelled substrate along the transported match is the
     relabelled ITS (and fails exactly when the original fails). *)
@@ -45,16 +69,12 @@ Proof.
 Qed.
 Print Assumptions C05_matches_equivariant.
 
-(** 3. Strategies.  The fallback strategy returns the component-aware result whenever that is non-empty: raw matches,
-    kept matches and (pattern without explicit X-H bonds) glued graphs.  When the substrate has fewer components than
-    the pattern the component-aware search is the exhaustive search.
-    PARTIAL: the general inclusion  comp <= all  (every component-aware match is, up to the order of its pairs, an
-    exhaustive match) is not proved here — it needs the theory of connected components of model/C06_Model.v
-    (no pattern edge joins two pattern components; host components are disjoint); it is compared on every run by the
-    correspondence (match counts and glued multisets of both strategies against the implementation) and by the oracle
-    (reaction sets).  On the explicit-hydrogen path the re-matching inside _glue_graph uses the strategy again, so the
-    glued-graph clause is stated for patterns without explicit X-H bonds. *)
-Theorem C05_strategy_subset_partial :
+(** 3. Strategies, dispatch.  The fallback strategy returns the component-aware result whenever that is non-empty: raw
+    matches, kept matches and (pattern without explicit X-H bonds) glued graphs.  When the substrate has fewer
+    components than the pattern the component-aware search is the exhaustive search.  On the explicit-hydrogen path the
+    re-matching inside _glue_graph uses the strategy again, so the glued-graph clause is stated for patterns without
+    explicit X-H bonds.  The inclusion comp <= all is 3' below. *)
+Theorem C05_strategy_dispatch :
   (forall host pat, matches 1%N host pat <> [] -> matches 2%N host pat = matches 1%N host pat) /\
   (forall host p, raw_of 1%N host p <> [] -> kept_of 2%N host p = kept_of 1%N host p) /\
   (forall host p, p_flag p = false -> raw_of 1%N host p <> [] -> glued_of 2%N host p = glued_of 1%N host p) /\
@@ -65,7 +85,7 @@ Theorem C05_strategy_subset_partial :
 Proof.
   split; [exact matches_bt_comp|]. split; [exact kept_bt_comp|]. split; [exact glued_bt_comp | exact matches_comp_all_few].
 Qed.
-Print Assumptions C05_strategy_subset_partial.
+Print Assumptions C05_strategy_dispatch.
 
 (** 4. Repetition: the modelled pipeline is a function of its inputs (no hidden state). *)
 Theorem C05_repeat :
@@ -98,12 +118,12 @@ Print Assumptions C05_prune_sound.
     insertion order — the kept matches, the glued graphs and the result list (without the _explicit_h stage) of the
     renumbered inputs are literally the renumbered ones, one for one and in the same order.  In particular nothing in
     the pipeline looks at the numbers (no tie-break by node id, no anchor by smallest id: the defect repaired by aa7fe3c).
-    MISSING: (i) insertion-order changes: the enumerator's result SET does not depend on the order (lib/Mono.v
-    monos_spec) but the kept representative of a class does, so this needs "matches in one class glue to the same graph
-    up to list order" (C11 clause 4); (ii) the explicit-hydrogen path: new hydrogen ids and h_pairs ids are allocated in
-    numeric order, so results are isomorphic, not literally renumbered; (iii) the RDKit half.  All three are exercised on
-    every run: the correspondence compares the multiset of glued graphs of every writing and strategy with the
-    implementation (whose VF2 order differs from the model's), the oracle compares reaction sets across writings. *)
+    NOT IN THIS LITERAL FORM: (i) insertion-order changes — the kept representative of a class and the order of the lists
+    change; the set-level statement for the exhaustive strategy is section 7; (ii) the explicit-hydrogen path: new
+    hydrogen ids and h_pairs ids are allocated in numeric order, so results are isomorphic, not literally renumbered;
+    (iii) the RDKit half.  All three are exercised on every run: the correspondence compares the multiset of glued graphs
+    of every writing and strategy with the implementation (whose VF2 order differs from the model's), the oracle
+    compares reaction sets across writings. *)
 Theorem C05_result_set_invariant_partial :
   forall (strat : N) (sg pi : N -> N), inj sg -> inj pi ->
   forall (host : hostg) (p : prepared), p_flag p = false ->
@@ -149,3 +169,75 @@ Theorem C05_matches_order_independent :
      forall m, In m (matches 0%N host pat) -> In (mv sg pi m) (matches 0%N host' (relabel sg pat))).
 Proof. split; [exact matches_all_host_order | exact matches_all_rewriting]. Qed.
 Print Assumptions C05_matches_order_independent.
+
+(** 3'. The component-aware strategy returns a subset of the exhaustive strategy: every component-aware match is, as a
+    set of pairs (Permutation: the order of the pairs of a match is not observable, Python dicts), an exhaustive match.
+    Premises: the matcher's graphs are well formed ([gwf]: distinct node ids, bonds join two different listed atoms —
+    part of [side_okb], evaluated on every case) and neither search runs into the engine's threshold of 5000
+    embeddings ([comp_bound] = the longest list the component-aware search builds; past the threshold the engine
+    empties a result, and the exhaustive search is the first to get there).  Derived from the specification theorems
+    of proof/C06_*.v (C06_comp_spec, C06_all_exact) instantiated with the reactor's configuration. *)
+Theorem C05_strategy_subset :
+  forall (host : hostg) (pat : molg),
+    gwf (host_c06 host) -> gwf (pat_c06 pat) ->
+    (comp_bound (C06_Model.monos_on (host_c06 host) (pat_c06 pat)) true (host_c06 host) (pat_c06 pat) <= DEFAULT_THRESHOLD)%N ->
+    (C06_Model.lenN (C06_Model.monos_on (host_c06 host) (pat_c06 pat) (node_ids (host_c06 host)) (node_ids (pat_c06 pat)))
+       <= DEFAULT_THRESHOLD)%N ->
+    forall m, In m (matches 1%N host pat) -> exists m', In m' (matches 0%N host pat) /\ Permutation m m'.
+Proof. exact comp_subset_all. Qed.
+Print Assumptions C05_strategy_subset.
+
+(** 6. The glue does not look at insertion orders, and matches of one pruning class glue to the same ITS.
+    (a) two writings of substrate and rule (observationally equal graphs) and two writings of the match (same pairs):
+    both glues fail, or both succeed with observationally equal ITS graphs; (b) a match moved by one of the listed
+    automorphisms of the rule ([C11_Model.act s k] = the pairs (sigma[p], h)) glues to the same ITS as the match itself —
+    this is why pruning by rule automorphisms loses no reaction (clause 4 of C11 at graph level). *)
+Theorem C05_glue_order_independent :
+  (forall (host host' : hostg) (rc rc' : its) (m m' : mapping),
+     obs_eq host host' -> obs_eq rc rc' ->
+     simple_edgesb (gedges rc) = true -> simple_edgesb (gedges rc') = true ->
+     NoDup (map fst m) -> NoDup (map snd m) -> NoDup (map fst m') -> NoDup (map snd m') ->
+     (forall ph, In ph m <-> In ph m') ->
+     (forall p h, In (p, h) m -> (exists pn, label rc p = Some pn) /\ (exists hn, label host h = Some hn)) ->
+     match glue host rc m, glue host' rc' m' with
+     | Some T, Some T' => obs_eq T T'
+     | None, None => True
+     | _, _ => False
+     end) /\
+  (forall (rc : its) (s : mapping),
+     NoDup (node_ids rc) -> simple_edgesb (gedges rc) = true ->
+     (forall a b x, In (a, b, x) (gedges rc) -> In a (node_ids rc) /\ In b (node_ids rc)) ->
+     In s (rule_auts rc) ->
+     forall (host : hostg) (k : mapping),
+       NoDup (map fst k) -> NoDup (map snd k) ->
+       (forall p h, In (p, h) k -> (exists pn, label rc p = Some pn) /\ (exists hn, label host h = Some hn)) ->
+       match glue host rc k, glue host rc (C11_Model.act s k) with
+       | Some T, Some T' => obs_eq T T'
+       | None, None => True
+       | _, _ => False
+       end).
+Proof. split; [exact glue_obs | exact glue_aut]. Qed.
+Print Assumptions C05_glue_order_independent.
+
+(** 7. The result set of the exhaustive strategy is invariant under ARBITRARY rewriting of both inputs: renumbering by
+    (sg, pi) followed by any re-ordering of nodes, bonds and bond orientations of substrate, rule graph and pattern.
+    The glued ITS graphs of the rewritten inputs are, as a set of observationally equal graphs, exactly the renumbered
+    glued ITS graphs of the original: nothing is gained, nothing is lost.  (Pattern without explicit X-H bonds; the
+    premises [side_okb] are evaluated by the correspondence on every writing of every case.)
+    With the RDKit contract (rewritten SMILES parse to the same graph up to numbering and order; isomorphic ITS graphs
+    serialise to equal standardised strings) this is the property's first clause for the exhaustive strategy.
+    Not covered: COMPONENT/BACKTRACK under re-ordering (under renumbering: 5b), the explicit-hydrogen path, the
+    _explicit_h stage, rule preparation under re-ordering of the template (under renumbering: 5c). *)
+Theorem C05_result_set_invariant_exhaustive :
+  forall (sg pi : N -> N), inj sg -> inj pi ->
+  forall (host host'' : hostg) (p p'' : prepared),
+    side_okb (relabel pi host) (relabel_prep sg p) = true -> side_okb host'' p'' = true ->
+    same_graph (relabel pi host) host'' -> same_graph (relabel sg (p_rc p)) (p_rc p'') ->
+    same_graph (relabel sg (p_pat p)) (p_pat p'') ->
+    (forall T, In T (glued_of 0%N host p) -> exists T'', In T'' (glued_of 0%N host'' p'') /\ obs_eq (relabel pi T) T'') /\
+    (forall T'', In T'' (glued_of 0%N host'' p'') -> exists T, In T (glued_of 0%N host p) /\ obs_eq (relabel pi T) T'').
+Proof.
+  intros sg pi Hs Hp host host'' p p'' S S''.
+  exact (glued_set_rewriting sg pi Hs Hp host host'' p p'' (side_okb_ok _ _ S) (side_okb_ok _ _ S'')).
+Qed.
+Print Assumptions C05_result_set_invariant_exhaustive.
